@@ -1,7 +1,7 @@
 #!/bin/bash
-# confirm_seed.sh <seed dir (/tmp/seed-Cxx)> <N> : confirm change N in a scratch worktree /tmp/wt-confirm
+# confirm_seed.sh <seed dir (/tmp/seed-Cxx)> <N> : confirm change N in a scratch worktree ($WT, default /tmp/wt-confirm)
 # writes <seeddir>/confirmN.json
-sd="$1"; n="$2"; wt=/tmp/wt-confirm
+sd="$1"; n="$2"; wt=${WT:-/tmp/wt-confirm}; lg=/tmp/confirm-$(basename $wt)
 export CARGO_NET_OFFLINE=true
 [ -d $wt ] || git -C /repo worktree add -q --detach $wt HEAD
 cd $wt && git checkout -q -- . && git clean -fdq tests src
@@ -9,18 +9,18 @@ res="{}"
 demo=zz_seed_demo
 # demo without change
 cp "$sd/demo$n.rs" tests/$demo.rs
-cargo test --offline --test $demo > /tmp/confirm_wo.log 2>&1; wo=$?
+cargo test --offline --test $demo > $lg.wo.log 2>&1; wo=$?
 git apply "$sd/change$n.diff" || { echo "{\"apply\": false}" > "$sd/confirm$n.json"; exit 1; }
-cargo build --offline > /tmp/confirm_build.log 2>&1; b=$?
-cargo test --offline --test $demo > /tmp/confirm_w.log 2>&1; w=$?
+cargo build --offline > $lg.build.log 2>&1; b=$?
+cargo test --offline --test $demo > $lg.w.log 2>&1; w=$?
 rm tests/$demo.rs
-cargo nextest run --workspace --no-fail-fast --offline --test-threads 6 > /tmp/confirm_suite.log 2>&1; s=$?
-summary=$(grep -E "^\s+Summary" /tmp/confirm_suite.log | tail -1 | sed 's/"/ /g')
-failed=$(grep -E "^\s+(FAIL|TIMEOUT)" /tmp/confirm_suite.log | awk '{print $NF}' | sort -u | tr '\n' ' ')
+cargo nextest run --workspace --no-fail-fast --offline --test-threads 6 > $lg.suite.log 2>&1; s=$?
+summary=$(grep -E "^\s+Summary" $lg.suite.log | tail -1 | sed 's/"/ /g')
+failed=$(grep -E "^\s+(FAIL|TIMEOUT)" $lg.suite.log | awk '{print $NF}' | sort -u | tr '\n' ' ')
 # rerun failed/timeouts alone (load-induced timeouts)
 rerun_ok=true
 if [ $s -ne 0 ]; then
-  for t in $failed; do cargo nextest run --offline --no-fail-fast -E "test($t)" > /tmp/confirm_rerun.log 2>&1 || rerun_ok=false; done
+  for t in $failed; do cargo nextest run --offline --no-fail-fast -E "test($t)" > $lg.rerun.log 2>&1 || rerun_ok=false; done
 fi
 git checkout -q -- . ; git clean -fdq tests src
 echo "{\"apply\": true, \"build_rc\": $b, \"demo_without_change_rc\": $wo, \"demo_with_change_rc\": $w, \"suite_rc\": $s, \"suite_summary\": \"$summary\", \"suite_failed_first_pass\": \"$failed\", \"failed_tests_pass_alone\": $rerun_ok}" > "$sd/confirm$n.json"
